@@ -6,6 +6,6 @@ if [ -n "$(git status --porcelain --untracked-files=no)" ]; then echo "repo dirt
 git apply "$P" || { echo "patch does not apply"; exit 2; }
 for id in "$@"; do
   echo "== $id with $(basename $P)"
-  ( cd /verif && ./check "$id" 2>&1 | grep -E "VIOLATION|KNOWN-FINDING|: ok|MACHINERY|violation\(s\)" | cut -c1-220 | head -6 ; )
+  ( cd /verif && ./check "$id" 2>&1 | grep -E "clauses:|: ok|MACHINERY|violation\(s\)" | cut -c1-220 | head -6 ; )
 done
 cd /repo && git checkout -- . 
